@@ -399,6 +399,43 @@ def main(ctx):
                 if ctx.known_cell(cid, h(prob, 10)):
                     continue
                 ctx.violation(("roundtrip", prob), {"case": src[:1200], "observed": e})
+        # ---- c2. statement separators: the same statements separated by a space, each line terminator (a lone CR included), CRLF, tab,
+        # VT/FF or a comment mean the same; the second statement is padded so that its tokens fall on every column the first one's did
+        # (positions that coincide after a terminator must not be confused with one another)
+        SEPS = [" ", "\n", "\r", "\r\n", "\u2028", "\u2029", "\t", "\x0b", "\x0c", "/* c */", "// c\n", "// c\r", "\n\r", "\r\r", " \r ", "\r\n\r"]
+        PAIRS = [("var f = (a) => a + 1;", "var g = (2) * 3; f(1) + g"), ("var g = (2) * 3;", "var f = (a) => a + 1; f(1) + g"),
+                 ("var o = {a: 1}; var a = 5;", "var p = {a}.a; o.a + p"), ("var r = /x/.test('x');", "var q = 8 /x/ 2; var x = 2; r"),
+                 ("var f = function (a) { return a; };", "var g = f (4); g"), ("var t = ((1), (b) => b);", "var u = ((3), (4)); t(u)"),
+                 ("var x = 2; var y = (x) / 2;", "var z = (x) => 2; y + z(1)"), ("var l = [(a, b) => a];", "var m = [(1, 2)]; m[0] + l[0](1, 2)")]
+        sep_cases = []
+        for a_, b_ in PAIRS:
+            for pad in range(0, 5):
+                for lead in ("", "var ", "  "):
+                    second = (lead if lead.strip() == "" else "") + " " * pad + b_
+                    for sep in SEPS:
+                        sep_cases.append({"pair": [a_, b_], "pad": pad, "lead": lead, "sep": sep, "src": a_ + sep + second})
+        sres = ep.map({"mod": "vf.engine", "fn": "w_run", "opts": {"log": False}}, [{"src": c["src"]} for c in sep_cases], batch=40)
+        base_of = {}
+        for c, r in zip(sep_cases, sres):
+            if c["sep"] == " ":
+                base_of[(tuple(c["pair"]), c["pad"], c["lead"])] = r
+        sep_ok = 0
+        sep_skipped = set()
+        for c, r in zip(sep_cases, sres):
+            ctx.count()
+            b0 = base_of[(tuple(c["pair"]), c["pad"], c["lead"])]
+            key = lambda x: None if x is None else (x.get("out"), json.dumps(x.get("ret")), (x.get("err") or {}).get("name"))
+            if b0 is None or b0.get("out") != "ok":
+                sep_skipped.add(tuple(c["pair"]))      # (this pair of statements is not a valid program for this engine)
+                continue
+            if key(r) == key(b0):
+                sep_ok += 1
+                ctx.nontrivial(("sep", h(c["src"])))
+                continue
+            ctx.violation(("separator-changes-meaning", repr(c["sep"])), {"case": c, "with_space": key(b0), "observed": key(r)})
+        ctx.cov["separator_equivalence_cases"] = len(sep_cases)
+        ctx.cov["separator_equivalence_agreeing"] = sep_ok
+        ctx.cov["separator_equivalence_pairs_not_runnable"] = sorted(sep_skipped)
         # ---- d. literals
         nums = number_spellings(fixed, 40 if ctx.quick else 600) + number_spellings(rng, 20 if ctx.quick else 300)
         strs = string_spellings(fixed, 300 if ctx.quick else 4000) + string_spellings(rng, 100 if ctx.quick else 2000)
